@@ -68,3 +68,105 @@ Qed.
 
 Theorem decode_length b t : utf8_decode b = Some t -> blength b = blen t.
 Proof. unfold utf8_decode. intros H. apply decode_go_length in H. cbn in H. lia. Qed.
+
+(* ------------------------------------------------------------------------------------------ *)
+(* strict decoding is the inverse of encoding: a byte string that decodes IS the encoding      *)
+(* ------------------------------------------------------------------------------------------ *)
+Require Import ZArith ZifyN ZifyBool.
+Ltac Zify.zify_post_hook ::= Z.div_mod_to_equations.
+
+Lemma utf8_encode_app a b : utf8_encode (a ++ b) = (utf8_encode a ++ utf8_encode b)%list.
+Proof. induction a as [|c a IH]; cbn [app utf8_encode]; [reflexivity|]. rewrite IH, app_assoc. reflexivity. Qed.
+
+Lemma enc1 b0 : b0 < 128 -> encode_cp b0 = [b0].
+Proof. intros H. unfold encode_cp. destruct (N.ltb_spec b0 128); [reflexivity|lia]. Qed.
+
+Lemma enc2 b0 b1 : 194 <= b0 -> b0 <= 223 -> 128 <= b1 -> b1 <= 191 ->
+  encode_cp ((b0 - 192) * 64 + (b1 - 128)) = [b0; b1].
+Proof.
+  intros. set (c := (b0 - 192) * 64 + (b1 - 128)). unfold encode_cp.
+  destruct (N.ltb_spec c 128); [unfold c in *; lia|]. destruct (N.ltb_spec c 2048); [|unfold c in *; lia].
+  assert (c / 64 = b0 - 192) by (unfold c; lia). assert (c mod 64 = b1 - 128) by (unfold c; lia).
+  f_equal; [lia|]. f_equal. lia.
+Qed.
+
+Lemma enc3 b0 b1 b2 : 224 <= b0 -> b0 <= 239 -> 128 <= b1 -> b1 <= 191 -> (b0 = 224 -> 160 <= b1) ->
+  128 <= b2 -> b2 <= 191 ->
+  encode_cp ((b0 - 224) * 4096 + (b1 - 128) * 64 + (b2 - 128)) = [b0; b1; b2].
+Proof.
+  intros. set (c := (b0 - 224) * 4096 + (b1 - 128) * 64 + (b2 - 128)). unfold encode_cp.
+  destruct (N.ltb_spec c 128); [unfold c in *; lia|]. destruct (N.ltb_spec c 2048); [unfold c in *; lia|].
+  destruct (N.ltb_spec c 65536); [|unfold c in *; lia].
+  assert (c / 4096 = b0 - 224) by (unfold c; lia).
+  assert ((c / 64) mod 64 = b1 - 128) by (unfold c; lia).
+  assert (c mod 64 = b2 - 128) by (unfold c; lia).
+  f_equal; [lia|]. f_equal; [lia|]. f_equal. lia.
+Qed.
+
+Lemma enc4 b0 b1 b2 b3 : 240 <= b0 -> b0 <= 244 -> 128 <= b1 -> b1 <= 191 -> (b0 = 240 -> 144 <= b1) ->
+  128 <= b2 -> b2 <= 191 -> 128 <= b3 -> b3 <= 191 ->
+  encode_cp ((b0 - 240) * 262144 + (b1 - 128) * 4096 + (b2 - 128) * 64 + (b3 - 128)) = [b0; b1; b2; b3].
+Proof.
+  intros. set (c := (b0 - 240) * 262144 + (b1 - 128) * 4096 + (b2 - 128) * 64 + (b3 - 128)). unfold encode_cp.
+  destruct (N.ltb_spec c 128); [unfold c in *; lia|]. destruct (N.ltb_spec c 2048); [unfold c in *; lia|].
+  destruct (N.ltb_spec c 65536); [unfold c in *; lia|].
+  assert (c / 262144 = b0 - 240) by (unfold c; lia).
+  assert ((c / 4096) mod 64 = b1 - 128) by (unfold c; lia).
+  assert ((c / 64) mod 64 = b2 - 128) by (unfold c; lia).
+  assert (c mod 64 = b3 - 128) by (unfold c; lia).
+  f_equal; [lia|]. f_equal; [lia|]. f_equal; [lia|]. f_equal. lia.
+Qed.
+
+Lemma encode_rev_cons c acc : utf8_encode (rev (c :: acc)) = (utf8_encode (rev acc) ++ encode_cp c)%list.
+Proof. cbn [rev]. rewrite utf8_encode_app. cbn [utf8_encode]. rewrite app_nil_r. reflexivity. Qed.
+
+Lemma decode_go_encode : forall fuel b acc t,
+  utf8_decode_go fuel b acc = Some t -> utf8_encode t = (utf8_encode (rev acc) ++ b)%list.
+Proof.
+  induction fuel as [|x fuel IH]; intros b acc t H.
+  - destruct b as [|b0 r0]; cbn in H; [|discriminate]. inversion H; subst. rewrite app_nil_r. reflexivity.
+  - destruct b as [|b0 r0]; [cbn in H; inversion H; subst; rewrite app_nil_r; reflexivity|].
+    cbn [utf8_decode_go] in H.
+    destruct (N.ltb_spec b0 128) as [Hlt|Hge].
+    { apply IH in H. rewrite H, encode_rev_cons, (enc1 b0 Hlt), <- app_assoc. reflexivity. }
+    destruct (in_rng 194 223 b0) eqn:E2.
+    { apply in_rng_spec in E2. destruct r0 as [|b1 r1]; [discriminate|].
+      destruct (is_cont b1) eqn:Ec; [|discriminate]. apply is_cont_spec in Ec.
+      apply IH in H. rewrite H, encode_rev_cons, enc2 by lia. rewrite <- app_assoc. reflexivity. }
+    destruct (in_rng 224 239 b0) eqn:E3.
+    { apply in_rng_spec in E3. destruct r0 as [|b1 [|b2 r2]]; try discriminate.
+      destruct ((if b0 =? 224 then in_rng 160 191 b1 else if b0 =? 237 then in_rng 128 159 b1 else is_cont b1)
+                && is_cont b2) eqn:Ec; [|discriminate].
+      apply andb_true_iff in Ec. destruct Ec as [E1 Ec2]. apply is_cont_spec in Ec2.
+      assert (Hb1 : 128 <= b1 /\ b1 <= 191 /\ (b0 = 224 -> 160 <= b1)).
+      { destruct (N.eqb_spec b0 224).
+        - apply in_rng_spec in E1. lia.
+        - destruct (N.eqb_spec b0 237); [apply in_rng_spec in E1|apply is_cont_spec in E1]; lia. }
+      apply IH in H. rewrite H, encode_rev_cons, enc3 by lia. rewrite <- app_assoc. reflexivity. }
+    destruct (in_rng 240 244 b0) eqn:E4; [|discriminate].
+    apply in_rng_spec in E4. destruct r0 as [|b1 [|b2 [|b3 r3]]]; try discriminate.
+    destruct ((if b0 =? 240 then in_rng 144 191 b1 else if b0 =? 244 then in_rng 128 143 b1 else is_cont b1)
+              && is_cont b2 && is_cont b3) eqn:Ec; [|discriminate].
+    apply andb_true_iff in Ec. destruct Ec as [Ec Ec3]. apply andb_true_iff in Ec. destruct Ec as [E1 Ec2].
+    apply is_cont_spec in Ec2, Ec3.
+    assert (Hb1 : 128 <= b1 /\ b1 <= 191 /\ (b0 = 240 -> 144 <= b1)).
+    { destruct (N.eqb_spec b0 240).
+      - apply in_rng_spec in E1. lia.
+      - destruct (N.eqb_spec b0 244); [apply in_rng_spec in E1|apply is_cont_spec in E1]; lia. }
+    apply IH in H. rewrite H, encode_rev_cons, enc4 by lia. rewrite <- app_assoc. reflexivity.
+Qed.
+
+Theorem decode_is_encode b t : utf8_decode b = Some t -> b = utf8_encode t.
+Proof. unfold utf8_decode. intros H. apply decode_go_encode in H. cbn in H. symmetry. exact H. Qed.
+
+Lemma blength_app a b : blength (a ++ b) = blength a + blength b.
+Proof. induction a as [|x a IH]; cbn [app blength]; [lia|]. rewrite IH. lia. Qed.
+
+Lemma blength_encode_cp c : blength (encode_cp c) = cplen c.
+Proof.
+  unfold encode_cp, cplen. destruct (c <? 128); [reflexivity|]. destruct (c <? 2048); [reflexivity|].
+  destruct (c <? 65536); reflexivity.
+Qed.
+
+Lemma blength_encode t : blength (utf8_encode t) = blen t.
+Proof. induction t as [|c t IH]; cbn [utf8_encode blength blen]; [reflexivity|]. rewrite blength_app, blength_encode_cp, IH. reflexivity. Qed.
